@@ -73,6 +73,9 @@ class Engine:
                      "(TokenizerWorker + observer thread)"],
             "simulated": ["frame source -> SimFrameSource (logs reads, EOF at "
                           "every cut)", "audio source -> SimAudioSource",
+                          "L2 'rawfile': a lazily read raw scratch file, "
+                          "watched through the open() seam of auditok.io "
+                          "(bytes asked of the file at each hand-over)",
                           "L3: queue/thread/clock seams as in engine "
                           "pipeline"],
             "stubbed": [], "not_run": [],
@@ -588,7 +591,21 @@ class Engine:
             cnt = res["cnt"] = {"frames": 0, "eof": 0, "calls": 0}
             tok_read = tok.read
 
+            first_seen = res["first_seen"] = {}
+
             def counting_read():
+                # second vantage point: the worker's public `detections`
+                # list as it stands when the worker comes back for the next
+                # frame.  Whichever of the two (this, or the observer's
+                # send()) shows a detection EARLIER bounds the moment the
+                # generator item reached the worker - how and in which
+                # thread the worker then passes it on is not C08's business
+                try:
+                    nd = len(tok.detections)
+                except Exception:
+                    nd = 0
+                for i_ in range(len(first_seen), nd):
+                    first_seen[i_] = (cnt["frames"], cnt["eof"])
                 b = tok_read()
                 cnt["calls"] += 1
                 if b is None:
@@ -655,7 +672,11 @@ class Engine:
             # the worker does not pull through its read(): no vantage point
             out["probes"]["l3_worker_read_not_used"] = 1
         elif len(toks) == len(sent):
+            first_seen = res.get("first_seen", {})
             for i, (tok, (frames, eof)) in enumerate(zip(toks, sent)):
+                if i in first_seen and first_seen[i] < (frames, eof):
+                    frames, eof = first_seen[i]
+                    out["probes"]["l3_detection_seen_before_send"] = 1
                 d = nwin if eof else frames - 1
                 at[i] = d + 1
                 msg = self._latency(i, tok[1], tok[2], d, nwin, params["mx"],
